@@ -120,6 +120,25 @@ def payloads(rng, tier):
             pos = rng.choice([len(w), len(w), len(w), 0, max(0, len(w) - 1), len(w) // 2, rng.randint(0, len(w))])
             w.insert(pos, rng.choice(pool))
         yield "valid", {"cfg": cfg, "s": "".join(w), "only_last": rng.random() < 0.4}
+    # LONG strings (a vectorised path may only exist beyond some length) that are accepted except for one to three characters
+    # outside the alphabet -- among them characters whose code point is A / C / G / T modulo 256 or modulo 65536 (a narrowing cast
+    # would take them for nucleotides), lone surrogates and characters beyond the BMP
+    alias = [chr(b + 256 * m) for b in (0x41, 0x43, 0x47, 0x54) for m in (1, 2, 4, 255, 256, 257, 4096)]
+    for _ in range({"quick": 150, "thorough": 2500, "search": 100}[tier]):
+        k = rng.randint(1, 8)
+        cfg = gen.local_cfg(rng, k)
+        L = rng.choice([127, 128, 129, 200, 256, 257, 400, 1000])
+        unit = rng.choice(["ACGT", "AGCT", "ACTG", "TGCA", "AC", "GACT", "ATGC"])
+        base = (unit * (L // len(unit) + 1))[:L]
+        if not exact_pred(cfg, base, False):
+            continue
+        w = list(base)
+        for _j in range(rng.choice([1, 1, 2, 3])):
+            c = rng.choice(alias) if rng.random() < 0.7 else chr(rng.choice([rng.randrange(0x100, 0xD800), rng.randrange(0xE000, 0x110000),
+                                                                            0xD800 + rng.randrange(0x800)]))
+            w[rng.randrange(L)] = c
+        yield "valid", {"cfg": cfg, "s": "".join(w), "only_last": rng.random() < 0.3}
+        yield "valid", {"cfg": cfg, "s": base, "only_last": rng.random() < 0.3}
     # the float -> integer threshold step: Coq primitive floats (Thresholds.v, vm_compute) against CPython
     grid = [0.0, 0.1, 0.2, 0.25, 0.3, 0.35, 0.4, 0.45, 0.5, 0.55, 0.6, 0.65, 0.7, 0.75, 0.8, 0.9, 1.0]
     for _ in range({"quick": 120, "thorough": 3000, "search": 40}[tier]):
